@@ -13,6 +13,7 @@ mod indep;
 mod indep_mvt;
 mod mem;
 mod pipeline;
+mod server;
 mod util;
 mod vt;
 
@@ -34,6 +35,8 @@ fn main() {
 		("stress", "C13") => c13::stress(&args[3], &args[4], seed, thorough),
 		("replay", "C14") => c14::replay(&args[3], &args[4]),
 		("record", "C14") => c14::record(&args[3], seed, thorough),
+		("server", "TILES") => server::tiles(&args[3], &args[4], &args[5], &args[6]),
+		("server", "STATIC") => server::statics(&args[3], &args[4], &args[5], &args[6]),
 		("replay", "VT") => vt::replay(&args[3], &args[4], &args[5]),
 		("replay", "PIPELINE") => pipeline::replay(&args[3], &args[4], &args[5]),
 		("replay", "CONVERT") => convert::replay(&args[3], &args[4], &args[5]),
